@@ -364,6 +364,22 @@ def manifest_bytes_map(root):
     return sorted(out)
 
 
+def manifest_lines_map(root):
+    """{logical Manifest path: list of lines} (decompressed), for the signatures of known findings"""
+    out = {}
+    for dp, dn, fn in os.walk(root):
+        for f in sorted(fn):
+            if f.startswith('Manifest'):
+                fp = os.path.join(dp, f)
+                try:
+                    with open(fp, 'rb') as fh:
+                        text = fm.decompress(fh.read(), fm.compression_of(f)).decode('utf8', 'replace')
+                except Exception:  # noqa
+                    continue
+                out[fm.logical_path(os.path.relpath(fp, root))] = text.split('\n')
+    return out
+
+
 def canon_group(args):
     seed, idx, o = args
     from . import gem
@@ -398,6 +414,24 @@ def canon_group(args):
                 allpaths.add(full)
                 keep.append(e)
             L.mf[mp] = keep
+        # ... except, sometimes, one of two kinds of duplicates that an update does not resolve by looking at
+        # the file: two DIST lines of one name (sort ties), or two entries of different but compatible
+        # tags for one path (de-duplication keeps the first)
+        inject = None
+        r = rng.random()
+        if r < 0.2:
+            mp = rng.choice(sorted(L.mf))
+            nm = 'dup-%d.tar' % rng.randrange(3)
+            L.mf[mp].append({'tag': 'DIST', 'path': nm, 'size': 1, 'ck': {'SHA256': 'aa' * 32}})
+            L.mf[mp].append({'tag': 'DIST', 'path': nm, 'size': 2, 'ck': {'SHA256': 'bb' * 32}})
+            inject = {'kind': 'distdup', 'mf': mp, 'path': nm}
+        elif r < 0.4:
+            cands = [(mp, e) for mp in sorted(L.mf) for e in L.mf[mp] if e['tag'] in ('DATA', 'EBUILD')]
+            if cands:
+                mp, e = rng.choice(cands)
+                e2 = dict(e, tag='EBUILD' if e['tag'] == 'DATA' else 'DATA', ck=dict(e['ck']))
+                L.mf[mp].append(e2)
+                inject = {'kind': 'tagdup', 'mf': mp, 'path': e['path']}
         src = os.path.join(base, 'src')
         os.mkdir(src)
         L.write(src)
@@ -413,6 +447,7 @@ def canon_group(args):
         for group, vs, force in (('A', (0, 1), False), ('B', (0, 1, 2, 3), True)):
             variants = []
             descr = []
+            texts = []
             for v in vs:
                 dst = os.path.join(base, 'v%s%d' % (group, v))
                 shutil.copytree(src, dst, symlinks=True)
@@ -456,13 +491,15 @@ def canon_group(args):
                 if obs['end'] == 'ok':
                     variants.append([[p, dg, 'W' if pre.get(p) != post.get(p) else '-']
                                      for p, dg in manifest_bytes_map(dst)])
+                    texts.append(manifest_lines_map(dst))
                 else:
                     variants.append([['<failed>', obs['end'] + obs['exc'], 'W']])
+                    texts.append({})
                 descr.append({0: 'baseline', 1: 'shuffled walk', 2: 'permuted old entries', 3: 'both'}[v]
                              + (' forced' if force else ''))
             out.append({'kind': 'canon', 'variants': variants, 'descr': descr,
                         'meta': {'seed': seed, 'idx': idx, 'hashes': hashes, 'wm': wm, 'fmt': fmt,
-                                 'group': group}})
+                                 'group': group, 'inject': inject, 'texts': texts}})
         return out
     finally:
         shutil.rmtree(base, ignore_errors=True)
